@@ -2,11 +2,15 @@
 
 Correspondence: the exception layer of Color.parse / Style.parse / Style.normalize / markup.render /
 Console.get_style over ALL code points (Model/Totality.lean, parameterised by the running Python's
-character tables) vs real rich, in-process: outcome class and, on success, the value.
+character tables) vs real rich, in-process: outcome class and, on success, the value; and the composed
+model of Console.print(str, markup=False) (Model/TotalityPrint.lean, `c14_print_plain`): the characters written.
 Direct evaluation (3d): the exception class (or absence) observed at every public entry point of the
 statement — the five above plus AnsiDecoder.decode, Text(), Console.print(markup=False / True) — and
-Console.render / Measurement.get / Console.print over random trees of built-in renderables with valid
-options at widths 1..200.
+Console.render / Measurement.get over the bounded-exhaustive stream of small trees of lib_c14.small_trees
+(widths 1..6 and around every structural threshold), Console.render / Measurement.get / Console.print over
+random trees of built-in renderables with valid options at widths 1..200.
+The theorems (Props/C14.lean) also cover the decoder, Text(), Text.wrap / render, print(markup=False) and the
+renderable trees of Model/Layout.lean (decode_total, text_ctor_total, wrap_total, print_plain_total, layout_total).
 """
 import io
 import itertools
@@ -564,12 +568,12 @@ MANIFEST = {
     "Columns(width > console)).  Tie: ~160k (quick) / ~2.5M (thorough) generated strings compared model-vs-rich on outcome class AND value "
     "(colour fields, str(style), normal form, plain text + spans; ~2.7k/65k Console.print(markup=False) outputs through the composed print "
     "model), the driver's Unicode tables compared with the running interpreter; direct evaluation of the exception class at every entry "
-    "point of the statement, over a bounded-exhaustive stream of 4,319 small trees (every renderable kind x every boolean/enum option x "
+    "point of the statement, over a bounded-exhaustive stream of 4,341 small trees (every renderable kind x every boolean/enum option x "
     "small/threshold numeric options, depth <= 2) x widths 1..6 and =,+-1 around every structural threshold, and over seeded random trees "
     "of 15 kinds x widths 1..200.",
     "note": "What the theorems assume: the highlighter's contract (checked per case on rich's ReprHighlighter through direct evaluation of "
     "Console.print); CfgRepaired (the repaired code variants: what /repo contains); for layout_total the tree is one of Model/Layout.lean's "
-    "15 constructors (Pretty, Syntax, Markdown, Live are outside R) and titles/boxes outside the frame models' domain are the model's "
+    "16 constructors (Pretty, Syntax, Markdown, Live are outside R) and titles/boxes outside the frame models' domain are the model's "
     "`.ok none`, not an exception.  layout_total is stated as AllOk (the scrutinee of every Except/Option match of render/measure is not an "
     "error, at every node, width and options) because render/measure are total Lean functions that map a raising branch to a poison value.  "
     "The direct evaluation only sees mutations that raise, hang or mis-measure; wrong-but-silent output is the subject of C02/C05/C07/C08/"
@@ -578,6 +582,6 @@ MANIFEST = {
     "harness; lru_cache on the parsers assumed transparent; lone surrogates excluded.  On rich 9.10.0 as found the check reported F9 "
     "(rgb-component-valueerror), F10 (ansi-sgr-int-valueerror), F11 (columns-width-zero-division) and two new table findings "
     "(table-no-columns-assertion, table-zero-ratio-narrow-assertion); all are repaired in /repo (fixes c34676b, 8dc20cb, f7ecf83, 1d61bac, "
-    "ab98098), RGB_VALUEERROR holds the repaired value 0 and the check exits 0 with no finding.",
+    "ab98098), RGB_VALUEERROR holds the repaired value 0 and the check exits 0 with no finding: known_findings.txt has no `known:` line for C14, no KNOWN-FINDING line is printed.",
     "design_ref": "DESIGN.md section 7, C14",
 }
